@@ -54,6 +54,10 @@ def paramsOf (j : Json) (failing : List String) : Params F E where
   nulls f d := (asArr (jval (sub j "nulls" f) (toString d))).map asNat
   nrows d := asNat (sub j "nrows" (toString d))
   encFit f d kept :=
+    -- levels given in the formula (`C(a, levels=L)`) do not come from the data
+    match sub j "fixedenc" f with
+    | .arr a => a.toList.map asNat
+    | _ =>
     let rows := asArr (jval (sub j "levels" f) (toString d))
     kept.foldl (fun acc i => match rows[i]? with
       | some Json.null => acc
